@@ -7,7 +7,9 @@ import sys, os, json, subprocess, time, signal
 sys.path.insert(0, os.path.dirname(os.path.abspath(__file__)))
 import seedtest as ST
 
-CLONE = "/tmp/verif_seed"
+CLONE = os.environ.get("SEED_VERIF", "/tmp/verif_seed")
+if os.environ.get("SEEDCHK"):
+    ST.WT = os.environ["SEEDCHK"]
 OUT = os.environ.get("SEED_REGRESSION_OUT", "/verif/seeded/REGRESSION.json")
 
 
@@ -16,11 +18,16 @@ def main():
     ST.ensure_wt()
     res = json.load(open(OUT)) if os.path.exists(OUT) else {}
     names = sorted(d for d in os.listdir("/verif/seeded") if os.path.exists(os.path.join("/verif/seeded", d, "patch.diff")))
+    if os.environ.get("SEED_REVERSE"):
+        names.reverse()
+    other = os.environ.get("SEED_OTHER_OUT")
     for name in names:
         if only and name not in only:
             continue
         if name in res and not only:
             continue
+        if other and os.path.exists(other) and name in json.load(open(other)):
+            continue          # the other worker already did it
         d = os.path.join("/verif/seeded", name)
         meta = json.load(open(os.path.join(d, "meta.json"))) if os.path.exists(os.path.join(d, "meta.json")) else {}
         pids = []
